@@ -186,6 +186,8 @@ impl PacketSpace {
 
         for range in ack_frame.iter() {
             for pn in range.rev() {
+                #[cfg(gmquic_verif)]
+                crate::congestion::verif::ACK_LOOP_TICKS.fetch_add(1, std::sync::atomic::Ordering::Relaxed);
                 while index > 0 && self.sent_packets[index].packet_number > pn {
                     index = index.saturating_sub(1);
                 }
